@@ -148,6 +148,18 @@ class DLTypeContext:
                     expected_shape,
                     tensor_context.tensor,
                 )
+                annotation = tensor_context.dltype_annotation
+                if annotation.multiaxis_name is not None:
+                    # a named multi-axis group must cover the same number of axes wherever it appears
+                    n_fixed_axes = len(annotation.expected_shape) - 1
+                    n_group_axes = len(tensor_context.tensor.shape) - n_fixed_axes
+                    group_key = f"*{annotation.multiaxis_name}"
+                    if self.tensor_shape_map.setdefault(group_key, n_group_axes) != n_group_axes:
+                        raise _errors.DLTypeNDimsError(
+                            expected=n_fixed_axes + self.tensor_shape_map[group_key],
+                            actual=len(tensor_context.tensor.shape),
+                            tensor_name=tensor_context.tensor_arg_name,
+                        )
 
         finally:
             end_t = time.perf_counter_ns()
